@@ -215,8 +215,11 @@ def check(case):
                 err = max(float(np.max(np.abs(got_x - xn), initial=0.0)), float(np.max(np.abs(got_y - yn), initial=0.0)))
                 recs = [q for q in fac.solves if not q["observer"]]
                 if not recs:
-                    return violation(f"no-linear-solve|{ss}", f"{ss}/{ls}/{nt}: step computed without a linear solve", labels)
-                rec = recs[-1]
+                    # a step solver may handle a trivial system without the linear solver; the step is still compared
+                    rec = {"mat": __import__("scipy.sparse", fromlist=["x"]).csc_matrix(Fp), "rhs": F, "sol": s, "x0": None}
+                    labels.append("no_linear_solve")
+                else:
+                    rec = recs[-1]
                 M = rec["mat"].toarray()
                 svm = np.linalg.svd(M, compute_uv=False)
                 smin = svm[-1] if svm.size else 1.0
